@@ -232,21 +232,21 @@ Proof. reflexivity. Qed.
 
 (* a term's requirement for a key admits only values that satisfy every expression of the term on that key *)
 Lemma term_reqs_sound (t : term) k o vs v : List.In (k, o, vs) t -> valid_args o vs = true ->
-  has (get (term_reqs t) (nk k)) v = true -> k8s_match o vs (Some v) = true.
+  has (get (term_reqs t) k) v = true -> k8s_match o vs (Some v) = true.
 Proof.
   intros Hin Hv H. unfold term_reqs in H.
-  assert (Hi : List.In (nk k, new_req o None vs) (map expr_req t)).
+  assert (Hi : List.In (k, new_req o None vs) (map expr_req t)).
   { apply in_map_iff. exists (k, o, vs). split; [reflexivity|exact Hin]. }
-  pose proof (add_within [] _ (nk k) _ v Hi H) as Hh. rewrite has_new_req in Hh by exact Hv. exact Hh.
+  pose proof (add_within [] _ k _ v Hi H) as Hh. rewrite has_new_req in Hh by exact Hv. exact Hh.
 Qed.
 
 Lemma sel_reqs_sound (s : list (string * string)) k val v : List.In (k, val) s ->
-  has (get (sel_reqs s) (nk k)) v = true -> k8s_match In [val] (Some v) = true.
+  has (get (sel_reqs s) k) v = true -> k8s_match In [val] (Some v) = true.
 Proof.
   intros Hin H. unfold sel_reqs in H.
-  assert (Hi : List.In (nk k, new_req In None [val]) (map (fun kv : string * string => (nk (fst kv), new_req In None [snd kv])) s)).
+  assert (Hi : List.In (k, new_req In None [val]) (map (fun kv : string * string => (fst kv, new_req In None [snd kv])) s)).
   { apply in_map_iff. exists (k, val). split; [reflexivity|exact Hin]. }
-  pose proof (add_within [] _ (nk k) _ v Hi H) as Hh. rewrite has_new_req in Hh by reflexivity. exact Hh.
+  pose proof (add_within [] _ k _ v Hi H) as Hh. rewrite has_new_req in Hh by reflexivity. exact Hh.
 Qed.
 
 (* keys of a Requirements value built by Add are unique, so membership and lookup agree *)
@@ -262,12 +262,12 @@ Proof. intros Hn Hin. unfold get. rewrite (In_find k r m Hn Hin). reflexivity. Q
 
 Definition valid_term (t : term) : Prop := forall k o vs, List.In (k, o, vs) t -> valid_args o vs = true.
 
-(* NewPodRequirements / NewStrictPodRequirements: every value the pod's requirement admits for the (normalised) key of
+(* NewPodRequirements / NewStrictPodRequirements: every value the pod's requirement admits for the key of
    a constraint satisfies that constraint — for the node selector and every expression of the FIRST required term *)
 Lemma pod_reqs_sound all p :
-  (forall k val v, List.In (k, val) (p_sel p) -> has (get (pod_reqs all p) (nk k)) v = true -> k8s_match In [val] (Some v) = true) /\
+  (forall k val v, List.In (k, val) (p_sel p) -> has (get (pod_reqs all p) k) v = true -> k8s_match In [val] (Some v) = true) /\
   (forall t rest, p_req p = t :: rest -> valid_term t ->
-     forall k o vs v, List.In (k, o, vs) t -> has (get (pod_reqs all p) (nk k)) v = true -> k8s_match o vs (Some v) = true).
+     forall k o vs v, List.In (k, o, vs) t -> has (get (pod_reqs all p) k) v = true -> k8s_match o vs (Some v) = true).
 Proof.
   unfold pod_reqs.
   set (r0 := sel_reqs (p_sel p)).
@@ -278,9 +278,9 @@ Proof.
   - intros k val v Hin H. apply (sel_reqs_sound _ k val v Hin). apply H10.
     destruct (p_req p); [exact H|apply add_narrows in H; exact H].
   - intros t rest E Hvt k o vs v Hin H. rewrite E in H.
-    assert (Hi : exists r, List.In (nk k, r) (term_reqs t)).
-    { destruct (find (nk k) (term_reqs t)) as [r|] eqn:F; [exists r; apply find_In, F|]. exfalso.
-      assert (X : has_key (term_reqs t) (nk k) = true).
+    assert (Hi : exists r, List.In (k, r) (term_reqs t)).
+    { destruct (find k (term_reqs t)) as [r|] eqn:F; [exists r; apply find_In, F|]. exfalso.
+      assert (X : has_key (term_reqs t) k = true).
       { unfold term_reqs, add. clear -Hin.
         assert (G : forall kk rs m, (has_key m kk = true \/ List.In kk (map fst rs)) -> has_key (fold_left add1 rs m) kk = true).
         { intros kk. induction rs as [|[k' r'] rs IH]; intros m [Hm|Hr]; cbn [fold_left]; try exact Hm; try (destruct Hr; fail).
@@ -290,11 +290,11 @@ Proof.
           - cbn [map fst] in Hr. destruct Hr as [->|Hr].
             + apply IH. left. unfold add1, has_key. destruct (find kk m); rewrite find_set_same; reflexivity.
             + apply IH. right. exact Hr. }
-        apply G. right. apply in_map_iff. exists (nk k, new_req o None vs). split; [reflexivity|].
+        apply G. right. apply in_map_iff. exists (k, new_req o None vs). split; [reflexivity|].
         apply in_map_iff. exists (k, o, vs). split; [reflexivity|exact Hin]. }
       unfold has_key in X. rewrite F in X. discriminate. }
-    destruct Hi as (r & Hr). pose proof (add_within r1 _ (nk k) r v Hr H) as Hh.
-    rewrite <- (in_reqs_get _ (nk k) r (term_reqs_nodup t) Hr) in Hh.
+    destruct Hi as (r & Hr). pose proof (add_within r1 _ k r v Hr H) as Hh.
+    rewrite <- (in_reqs_get _ k r (term_reqs_nodup t) Hr) in Hh.
     apply (term_reqs_sound t k o vs v Hin (Hvt k o vs Hin) Hh).
 Qed.
 
@@ -380,10 +380,10 @@ Qed.
 
 (* ================================================================== NodeClaim steps *)
 
-(* the requirements the filter ran with (before minValues are lowered): claim + pod + the chosen volume alternative *)
-Definition base_reqs (all : bool) (n : nclaim) (p : pod) : reqs := add (nc_reqs n) (pod_reqs all p).
-Definition step_reqs (all : bool) (n : nclaim) (p : pod) (alt : option reqs) : reqs :=
-  match alt with None => base_reqs all n p | Some a => add (base_reqs all n p) a end.
+(* the requirements the filter ran with (before minValues are lowered): claim + pod (+ the chosen volume alternative) *)
+Definition step_reqs (all : bool) (n : nclaim) (p : pod) : reqs := add (nc_reqs n) (pod_reqs all p).
+Definition step_reqs_v (all : bool) (n : nclaim) (p : pod) (alt : option reqs) : reqs :=
+  match alt with None => step_reqs all n p | Some a => add (step_reqs all n p) a end.
 
 Lemma first_ok_ok {A B} (f : A -> res B) l : forall last b, first_ok f l last = Ok b ->
   (exists a, List.In a l /\ f a = Ok b) \/ last = Ok b.
@@ -394,40 +394,40 @@ Proof.
   - intros H. destruct (IH _ _ H) as [(a' & Hin & Ha)|Hl]; [left; exists a'; split; [right; exact Hin|exact Ha]|discriminate].
 Qed.
 
-Lemma alt_list_in p alt : List.In alt (alt_list p) ->
-  match alt with None => p_valts p = [] | Some a => List.In a (p_valts p) end.
+Lemma alt_list_in vi alt : List.In alt (alt_list vi) ->
+  match alt with None => vi_valts vi = [] | Some a => List.In a (vi_valts vi) end.
 Proof.
-  unfold alt_list. destruct (p_valts p) as [|x l] eqn:E.
+  unfold alt_list. destruct (vi_valts vi) as [|x l] eqn:E.
   - intros [<-|[]]. reflexivity.
   - intros H. apply in_map_iff in H as (a & <- & Ha). exact Ha.
 Qed.
 
-Lemma nc_can_add_ok wk cat all relax n p r its :
-  nc_can_add wk cat all relax n p = Ok (r, its) ->
+Lemma nc_can_add_v_ok wk cat all relax n p vi r its :
+  nc_can_add_v wk cat all relax n p vi = Ok (r, its) ->
   tolerates_all (nc_taints n) (p_tols p) = true /\
   compatible wk (nc_reqs n) (pod_reqs all p) = true /\
-  exists alt u, List.In alt (alt_list p) /\
-  r = (if relax then set_minv (step_reqs all n p alt) u else step_reqs all n p alt) /\
+  exists alt u, List.In alt (alt_list vi) /\
+  r = (if relax then set_minv (step_reqs_v all n p alt) u else step_reqs_v all n p alt) /\
   its <> [] /\
   forall name, List.In name its ->
     mem name (nc_its n) = true /\
     exists i g, List.In i cat /\ it_name i = name /\ List.In g (nc_groups n) /\ List.In name (dg_its g) /\
-      option_ok wk (step_reqs all n p alt) (rmerge (nc_requests n) (p_requests p)) (p_key p) (p_ports p) g i.
+      option_ok wk (step_reqs_v all n p alt) (rmerge (nc_requests n) (p_requests p)) (p_key p) (p_ports p) g i.
 Proof.
-  unfold nc_can_add.
+  unfold nc_can_add_v.
   destruct (tolerates_all (nc_taints n) (p_tols p)) eqn:T; simpl; [|discriminate].
   destruct (compatible wk (nc_reqs n) (pod_reqs all p)) eqn:C; simpl; [|discriminate].
   intros H. split; [reflexivity|]. split; [reflexivity|].
   apply first_ok_ok in H as [(alt & Hin & H)|H]; [|discriminate].
-  exists alt. unfold nc_try in H. fold (base_reqs all n p) in H.
-  assert (Hr : exists rr, (match alt with None => Ok (base_reqs all n p)
-                           | Some a => if compatible wk (base_reqs all n p) a then Ok (add (base_reqs all n p) a) else Err EVolReqs end) = Ok rr
-                          /\ rr = step_reqs all n p alt).
+  exists alt. unfold nc_try in H. fold (step_reqs all n p) in H.
+  assert (Hr : exists rr, (match alt with None => Ok (step_reqs all n p)
+                           | Some a => if compatible wk (step_reqs all n p) a then Ok (add (step_reqs all n p) a) else Err EVolReqs end) = Ok rr
+                          /\ rr = step_reqs_v all n p alt).
   { destruct alt as [a|]; simpl.
-    - destruct (compatible wk (base_reqs all n p) a); [eexists; split; reflexivity|discriminate].
+    - destruct (compatible wk (step_reqs all n p) a); [eexists; split; reflexivity|discriminate].
     - eexists; split; reflexivity. }
   destruct Hr as (rr & Hrr & Err'). rewrite Hrr in H. subst rr.
-  destruct (filter_its wk cat (nc_its n) (step_reqs all n p alt) (p_key p) (p_ports p) (nc_groups n)
+  destruct (filter_its wk cat (nc_its n) (step_reqs_v all n p alt) (p_key p) (p_ports p) (nc_groups n)
               (rmerge (nc_requests n) (p_requests p)) relax) as [[rem unsat] fe] eqn:F.
   destruct fe as [[| ]|]; try discriminate. injection H as <- <-.
   destruct (filter_its_sound _ _ _ _ _ _ _ _ _ _ _ F) as [Hne Hall].
@@ -438,12 +438,62 @@ Proof.
   split; [exact H1|]. exists i, g. split; [exact H2|]. split; [reflexivity|]. split; [exact Hg|]. split; [exact Hd|exact Ho].
 Qed.
 
+(* a pod without volume requirements: the general CanAdd is the plain one *)
+Lemma nc_can_add_v_vi0 wk cat all relax n p : nc_can_add_v wk cat all relax n p vi0 = nc_can_add wk cat all relax n p.
+Proof.
+  unfold nc_can_add_v, nc_can_add. destruct (negb (tolerates_all (nc_taints n) (p_tols p))); [reflexivity|].
+  destruct (negb (compatible wk (nc_reqs n) (pod_reqs all p))); [reflexivity|].
+  cbn [alt_list vi0 vi_valts first_ok]. unfold nc_try.
+  destruct (filter_its wk cat (nc_its n) (add (nc_reqs n) (pod_reqs all p)) (p_key p) (p_ports p) (nc_groups n)
+              (rmerge (nc_requests n) (p_requests p)) relax) as [[rem unsat] [[| ]|]]; reflexivity.
+Qed.
+
+Lemma nc_can_add_ok wk cat all relax n p r its :
+  nc_can_add wk cat all relax n p = Ok (r, its) ->
+  tolerates_all (nc_taints n) (p_tols p) = true /\
+  compatible wk (nc_reqs n) (pod_reqs all p) = true /\
+  (forall k v, has (get r k) v = has (get (step_reqs all n p) k) v) /\
+  its <> [] /\
+  forall name, List.In name its ->
+    mem name (nc_its n) = true /\
+    exists i g, List.In i cat /\ it_name i = name /\ List.In g (nc_groups n) /\ List.In name (dg_its g) /\
+      option_ok wk (step_reqs all n p) (rmerge (nc_requests n) (p_requests p)) (p_key p) (p_ports p) g i.
+Proof.
+  rewrite <- nc_can_add_v_vi0. intros H.
+  destruct (nc_can_add_v_ok _ _ _ _ _ _ _ _ _ H) as (HT & HC & alt & u & Hin & Er & Hne & Hits).
+  cbn [alt_list vi0 vi_valts] in Hin. destruct Hin as [<-|[]]. cbn [step_reqs_v] in *.
+  split; [exact HT|]. split; [exact HC|]. split; [|split; [exact Hne|exact Hits]].
+  intros k v. rewrite Er. destruct relax; [apply has_set_minv|reflexivity].
+Qed.
+
 (* running any sequence of scheduler steps against one claim *)
 Fixpoint nc_exec (wk : list string) (cat : list itype) (all : bool) (n : nclaim) (ops : list (pod * bool)) : nclaim :=
   match ops with
   | [] => n
   | (p, rx) :: rest => nc_exec wk cat all (fst (nc_step wk cat all rx n p)) rest
   end.
+
+(* ... pods with their volume inputs; the second component collects the pods that were placed *)
+Fixpoint nc_exec_v (wk : list string) (cat : list itype) (all : bool) (n : nclaim) (placed : list vpod) (ops : list (vpod * bool))
+  : nclaim * list vpod :=
+  match ops with
+  | [] => (n, placed)
+  | (vp, rx) :: rest =>
+      match nc_step_v wk cat all rx n (fst vp) (snd vp) with
+      | (n', Ok _) => nc_exec_v wk cat all n' (placed ++ [vp]) rest
+      | (n', Err _) => nc_exec_v wk cat all n' placed rest
+      end
+  end.
+
+Lemma nc_step_v_vi0 wk cat all rx n p : nc_step_v wk cat all rx n p vi0 = nc_step wk cat all rx n p.
+Proof. unfold nc_step_v, nc_step. rewrite nc_can_add_v_vi0. reflexivity. Qed.
+
+Lemma nc_exec_v_vi0 wk cat all ops : forall n placed,
+  fst (nc_exec_v wk cat all n placed (map (fun op : pod * bool => ((fst op, vi0), snd op)) ops)) = nc_exec wk cat all n ops.
+Proof.
+  induction ops as [|[p rx] ops IH]; intros n placed; simpl; [reflexivity|].
+  rewrite nc_step_v_vi0. destruct (nc_step wk cat all rx n p) as [n' [x|e]]; apply IH.
+Qed.
 
 (* Inv: requests are the sum over the placed pods; every placed pod tolerates the taints; every value the claim
    admits for a key satisfies the selector and the first required term of every placed (relaxed) pod; every
@@ -452,17 +502,17 @@ Definition pod_wf (p : pod) : Prop :=
   NoDup (map fst (p_requests p)) /\ (forall t rest, p_req p = t :: rest -> valid_term t).
 
 Definition values_ok (r : reqs) (p : pod) : Prop :=
-  (forall k val v, List.In (k, val) (p_sel p) -> has (get r (nk k)) v = true -> k8s_match In [val] (Some v) = true) /\
+  (forall k val v, List.In (k, val) (p_sel p) -> has (get r k) v = true -> k8s_match In [val] (Some v) = true) /\
   (forall t rest, p_req p = t :: rest ->
-     forall k o vs v, List.In (k, o, vs) t -> has (get r (nk k)) v = true -> k8s_match o vs (Some v) = true).
+     forall k o vs v, List.In (k, o, vs) t -> has (get r k) v = true -> k8s_match o vs (Some v) = true).
 
 (* some volume-topology alternative of the pod admits every value the node's requirement admits, key by key *)
-Definition valts_ok (r : reqs) (p : pod) : Prop :=
-  p_valts p = [] \/ exists a, List.In a (p_valts p) /\ forall k v, has (get r k) v = true -> has (get a k) v = true.
+Definition valts_ok (r : reqs) (vi : vinfo) : Prop :=
+  vi_valts vi = [] \/ exists a, List.In a (vi_valts vi) /\ forall k v, has (get r k) v = true -> has (get a k) v = true.
 
 Definition nc_inv (wk : list string) (cat : list itype) (n : nclaim) : Prop :=
   (forall k, rget k (nc_requests n) = rsum (map p_requests (nc_pods n)) k) /\
-  (forall p, List.In p (nc_pods n) -> k8s_tolerated (nc_taints n) (p_tols p) /\ values_ok (nc_reqs n) p /\ valts_ok (nc_reqs n) p) /\
+  (forall p, List.In p (nc_pods n) -> k8s_tolerated (nc_taints n) (p_tols p) /\ values_ok (nc_reqs n) p) /\
   (nc_pods n <> [] -> forall name, List.In name (nc_its n) ->
      exists i g alloc offs o, List.In i cat /\ it_name i = name /\ List.In g (nc_groups n) /\ List.In name (dg_its g) /\
        it_compatible i (nc_reqs n) = true /\
@@ -541,52 +591,93 @@ Proof.
 Qed.
 
 Lemma step_reqs_narrows all n p alt k v :
-  has (get (step_reqs all n p alt) k) v = true -> has (get (base_reqs all n p) k) v = true.
+  has (get (step_reqs_v all n p alt) k) v = true -> has (get (step_reqs all n p) k) v = true.
 Proof. destruct alt as [a|]; simpl; [apply add_narrows|intros H; exact H]. Qed.
 
-Lemma nc_step_preserves wk cat all rx n p :
+(* one step, with volume inputs: the invariant is kept, the requirements only narrow, and an accepted pod has a
+   volume-topology alternative that admits everything the claim now admits *)
+Lemma nc_step_v_preserves wk cat all rx n p vi :
   nc_wf n -> pod_wf p -> nc_inv wk cat n ->
-  nc_wf (fst (nc_step wk cat all rx n p)) /\ nc_inv wk cat (fst (nc_step wk cat all rx n p)).
+  let n' := fst (nc_step_v wk cat all rx n p vi) in
+  nc_wf n' /\ nc_inv wk cat n' /\
+  (forall k v, has (get (nc_reqs n') k) v = true -> has (get (nc_reqs n) k) v = true) /\
+  (forall x, snd (nc_step_v wk cat all rx n p vi) = Ok x -> nc_pods n' = nc_pods n ++ [p] /\ valts_ok (nc_reqs n') vi) /\
+  (forall e, snd (nc_step_v wk cat all rx n p vi) = Err e -> n' = n).
 Proof.
-  intros [Wn Wg] [Wp Wt] (I1 & I2 & I3). unfold nc_step.
-  destruct (nc_can_add wk cat all rx n p) as [[r its]|e] eqn:C; cbn [fst]; [|split; [split; assumption|split; [exact I1|split; [exact I2|exact I3]]]].
-  destruct (nc_can_add_ok _ _ _ _ _ _ _ _ C) as (HT & HC & alt & u & Halt & Er & Hne & Hits).
-  assert (Wstep : nodup_keys (step_reqs all n p alt)).
-  { unfold step_reqs, base_reqs. destruct alt; repeat apply nodup_add; exact Wn. }
-  assert (HR : forall k v, has (get r k) v = has (get (step_reqs all n p alt) k) v).
+  intros [Wn Wg] [Wp Wt] (I1 & I2 & I3). unfold nc_step_v.
+  destruct (nc_can_add_v wk cat all rx n p vi) as [[r its]|e] eqn:C; cbn [fst snd].
+  2:{ split; [split; assumption|]. split; [split; [exact I1|split; [exact I2|exact I3]]|]. split; [intros k v H; exact H|].
+      split; [intros x Hx; discriminate|intros e0 _; reflexivity]. }
+  destruct (nc_can_add_v_ok _ _ _ _ _ _ _ _ _ C) as (HT & HC & alt & u & Halt & Er & Hne & Hits).
+  assert (Wstep : nodup_keys (step_reqs_v all n p alt)).
+  { unfold step_reqs_v, step_reqs. destruct alt; repeat apply nodup_add; exact Wn. }
+  assert (HR : forall k v, has (get r k) v = has (get (step_reqs_v all n p alt) k) v).
   { intros k v. rewrite Er. destruct rx; [apply has_set_minv|reflexivity]. }
   assert (Wr : nodup_keys r).
   { rewrite Er. destruct rx; [|exact Wstep]. unfold nodup_keys. rewrite set_minv_keys. exact Wstep. }
+  assert (Hnar : forall k v, has (get r k) v = true -> has (get (nc_reqs n) k) v = true).
+  { intros k v Hh. rewrite HR in Hh. apply step_reqs_narrows in Hh. unfold step_reqs in Hh. apply add_narrows in Hh. exact Hh. }
   unfold nc_add. unfold nc_wf, nc_inv. cbn [nc_requests nc_pods nc_reqs nc_its nc_groups nc_taints].
   split.
   { split; [exact Wr|]. intros g Hg. apply in_map_iff in Hg as (g0 & <- & Hg0). cbn [dg_overhead]. apply Wg, Hg0. }
-  split; [|split].
+  split; [split; [|split]|].
   - intros k. rewrite map_app. cbn [map]. rewrite rsum_app, rget_rmerge, I1 by exact Wp. reflexivity.
   - intros q Hq. apply in_app_or in Hq as [Hq|[<-|[]]].
-    + destruct (I2 q Hq) as (Ht & Hv & Ha). split; [exact Ht|].
-      assert (Hnar : forall k v, has (get r k) v = true -> has (get (nc_reqs n) k) v = true).
-      { intros k v Hh. rewrite HR in Hh. apply step_reqs_narrows in Hh. unfold base_reqs in Hh. apply add_narrows in Hh. exact Hh. }
-      split; [destruct Hv as [V1 V2]; split;
-              [intros k val v Hin Hh; apply (V1 k val v Hin (Hnar _ v Hh))|intros t rest E k o vs v Hin Hh; apply (V2 t rest E k o vs v Hin (Hnar _ v Hh))]|].
-      destruct Ha as [E|(a & Hin & Hall)]; [left; exact E|right; exists a; split; [exact Hin|intros k v Hh; apply Hall, Hnar, Hh]].
-    + split; [apply tolerates_all_k8s, HT|]. split.
-      * assert (Hpod : forall k v, has (get r k) v = true -> has (get (pod_reqs all p) k) v = true).
-        { intros k v Hh. rewrite HR in Hh. apply step_reqs_narrows in Hh. unfold base_reqs in Hh. apply has_get_in_add in Hh. exact Hh. }
-        destruct (pod_reqs_sound all p) as [S1 S2]. split.
-        -- intros k val v Hin Hh. apply (S1 k val v Hin (Hpod _ v Hh)).
-        -- intros t rest E k o vs v Hin Hh. apply (S2 t rest E (Wt t rest E) k o vs v Hin (Hpod _ v Hh)).
-      * pose proof (alt_list_in p alt Halt) as Hal. destruct alt as [a|]; [|left; exact Hal].
-        right. exists a. split; [exact Hal|]. intros k v Hh. rewrite HR in Hh. cbn [step_reqs] in Hh. apply has_get_in_add in Hh. exact Hh.
+    + destruct (I2 q Hq) as (Ht & Hv). split; [exact Ht|].
+      destruct Hv as [V1 V2]; split;
+        [intros k val v Hin Hh; apply (V1 k val v Hin (Hnar _ v Hh))|intros t rest E k o vs v Hin Hh; apply (V2 t rest E k o vs v Hin (Hnar _ v Hh))].
+    + split; [apply tolerates_all_k8s, HT|].
+      assert (Hpod : forall k v, has (get r k) v = true -> has (get (pod_reqs all p) k) v = true).
+      { intros k v Hh. rewrite HR in Hh. apply step_reqs_narrows in Hh. unfold step_reqs in Hh. apply has_get_in_add in Hh. exact Hh. }
+      destruct (pod_reqs_sound all p) as [S1 S2]. split.
+      * intros k val v Hin Hh. apply (S1 k val v Hin (Hpod _ v Hh)).
+      * intros t rest E k o vs v Hin Hh. apply (S2 t rest E (Wt t rest E) k o vs v Hin (Hpod _ v Hh)).
   - intros _ name Hn. destruct (Hits name Hn) as (_ & i & g & Hi & Hnm & Hg & Hd & Hc & Hcomp & alloc & offs & o & Ha & Ho & Hco & Hf).
     exists i, (mkDG (dg_its g) (dg_overhead g) (uset (dg_ports g) (p_key p) (p_ports p))), alloc, offs, o. cbn [dg_its dg_overhead].
-    assert (Ecomp : forall oo, compatible wk r oo = compatible wk (step_reqs all n p alt) oo).
+    assert (Ecomp : forall oo, compatible wk r oo = compatible wk (step_reqs_v all n p alt) oo).
     { intros oo. rewrite Er. destruct rx; [apply compatible_set_minv, Wstep|reflexivity]. }
-    assert (Eint : it_compatible i r = it_compatible i (step_reqs all n p alt)).
+    assert (Eint : it_compatible i r = it_compatible i (step_reqs_v all n p alt)).
     { unfold it_compatible. rewrite Er. destruct rx; [apply intersects_set_minv, Wstep|reflexivity]. }
     repeat split; try assumption.
     + apply in_map_iff. exists g. split; [reflexivity|exact Hg].
     + rewrite Eint. exact Hcomp.
     + rewrite Ecomp. exact Hco.
+  - split; [exact Hnar|]. split; [|intros e0 He0; discriminate].
+    intros x _. split; [reflexivity|].
+    pose proof (alt_list_in vi alt Halt) as Hal. destruct alt as [a|]; [|left; exact Hal].
+    right. exists a. split; [exact Hal|]. intros k v Hh. rewrite HR in Hh. cbn [step_reqs_v] in Hh. apply has_get_in_add in Hh. exact Hh.
+Qed.
+
+Lemma nc_step_preserves wk cat all rx n p :
+  nc_wf n -> pod_wf p -> nc_inv wk cat n ->
+  nc_wf (fst (nc_step wk cat all rx n p)) /\ nc_inv wk cat (fst (nc_step wk cat all rx n p)).
+Proof.
+  intros Wn Wp I. rewrite <- nc_step_v_vi0.
+  destruct (nc_step_v_preserves wk cat all rx n p vi0 Wn Wp I) as (H1 & H2 & _). split; assumption.
+Qed.
+
+(* the invariant of a run with volume inputs: the placed list mirrors the claim's pods and each placed pod keeps a
+   satisfied volume-topology alternative *)
+Definition nc_inv_v (wk : list string) (cat : list itype) (n : nclaim) (placed : list vpod) : Prop :=
+  nc_wf n /\ nc_inv wk cat n /\ map fst placed = nc_pods n /\ forall vp, List.In vp placed -> valts_ok (nc_reqs n) (snd vp).
+
+Lemma valts_ok_narrow r r' vi : (forall k v, has (get r' k) v = true -> has (get r k) v = true) -> valts_ok r vi -> valts_ok r' vi.
+Proof.
+  intros Hn [E|(a & Hin & Hall)]; [left; exact E|right; exists a; split; [exact Hin|intros k v Hh; apply Hall, Hn, Hh]].
+Qed.
+
+Lemma nc_exec_v_inv wk cat all ops : forall n placed,
+  Forall (fun op : vpod * bool => pod_wf (fst (fst op))) ops -> nc_inv_v wk cat n placed ->
+  nc_inv_v wk cat (fst (nc_exec_v wk cat all n placed ops)) (snd (nc_exec_v wk cat all n placed ops)).
+Proof.
+  induction ops as [|[[p vi] rx] ops IH]; intros n placed Wops (Wn & I & Hm & Hv); simpl; [split; [exact Wn|split; [exact I|split; [exact Hm|exact Hv]]]|].
+  inversion Wops as [|? ? Wp Wrest]; subst. cbn [fst] in Wp.
+  destruct (nc_step_v_preserves wk cat all rx n p vi Wn Wp I) as (Wn' & I' & Hnar & Hok & Herr).
+  destruct (nc_step_v wk cat all rx n p vi) as [n' [x|e]] eqn:S; cbn [fst snd] in Wn', I', Hnar, Hok, Herr |- *; apply IH; try exact Wrest.
+  - destruct (Hok x eq_refl) as [Hp Hvi]. split; [exact Wn'|]. split; [exact I'|]. split.
+    + rewrite Hp, <- Hm, map_app. reflexivity.
+    + intros vp Hin. apply in_app_or in Hin as [Hin|[<-|[]]]; [apply (valts_ok_narrow _ _ _ Hnar), Hv, Hin|exact Hvi].
+  - rewrite (Herr e eq_refl). split; [exact Wn|split; [exact I|split; [exact Hm|exact Hv]]].
 Qed.
 
 Lemma nc_exec_inv wk cat all ops : forall n,
@@ -611,9 +702,9 @@ Qed.
    node may get for that key satisfies the constraint — for the node selector and the required term the pod was placed
    with (the first term of the relaxed pod, which is one of the original pod's terms) *)
 Definition chosen_ok (r : reqs) (p : pod) : Prop :=
-  (forall k val, List.In (k, val) (p_sel p) -> (exists v, has (get r (nk k)) v = true) -> sat_all (get r (nk k)) In [val]) /\
+  (forall k val, List.In (k, val) (p_sel p) -> (exists v, has (get r k) v = true) -> sat_all (get r k) In [val]) /\
   (forall t rest, p_req p = t :: rest -> forall k o vs, List.In (k, o, vs) t ->
-     (exists v, has (get r (nk k)) v = true) -> sat_all (get r (nk k)) o vs).
+     (exists v, has (get r k) v = true) -> sat_all (get r k) o vs).
 
 Lemma values_ok_sat_all r p : values_ok r p -> chosen_ok r p.
 Proof.
@@ -625,18 +716,24 @@ Proof.
 Qed.
 
 Theorem nc_options_admissible_l wk cat all n0 ops :
-  nc_wf n0 -> nc_pods n0 = [] -> nc_requests n0 = [] -> Forall (fun op => pod_wf (fst op)) ops ->
-  let n := nc_exec wk cat all n0 ops in
-  (forall p, List.In p (nc_pods n) -> k8s_tolerated (nc_taints n) (p_tols p) /\ chosen_ok (nc_reqs n) p /\ valts_ok (nc_reqs n) p) /\
+  nc_wf n0 -> nc_pods n0 = [] -> nc_requests n0 = [] -> Forall (fun op : vpod * bool => pod_wf (fst (fst op))) ops ->
+  let n := fst (nc_exec_v wk cat all n0 [] ops) in
+  let placed := snd (nc_exec_v wk cat all n0 [] ops) in
+  map fst placed = nc_pods n /\
+  (forall vp, List.In vp placed ->
+     k8s_tolerated (nc_taints n) (p_tols (fst vp)) /\ chosen_ok (nc_reqs n) (fst vp) /\ valts_ok (nc_reqs n) (snd vp)) /\
   (nc_pods n <> [] -> forall name, List.In name (nc_its n) ->
      exists i g alloc offs o, List.In i cat /\ it_name i = name /\ List.In g (nc_groups n) /\ List.In name (dg_its g) /\
        List.In (alloc, offs) (it_groups i) /\ List.In o offs /\ compatible wk (nc_reqs n) o = true /\
        resources_ok (nc_pods n) (dg_overhead g) alloc).
 Proof.
-  intros Wn Hp Hr Wops n.
-  destruct (nc_exec_inv wk cat all ops n0 Wn Wops (nc_inv_init wk cat n0 Hp Hr)) as [[_ Wg] (I1 & I2 & I3)].
-  fold n in Wg, I1, I2, I3. split.
-  - intros p Hin. destruct (I2 p Hin) as (Ht & Hv & Ha). split; [exact Ht|]. split; [apply values_ok_sat_all, Hv|exact Ha].
+  intros Wn Hp Hr Wops n placed.
+  assert (I0 : nc_inv_v wk cat n0 []).
+  { split; [exact Wn|]. split; [apply nc_inv_init; assumption|]. split; [rewrite Hp; reflexivity|intros vp []]. }
+  destruct (nc_exec_v_inv wk cat all ops n0 [] Wops I0) as ([_ Wg] & (I1 & I2 & I3) & Hm & Hv).
+  fold n in Wg, I1, I2, I3, Hm, Hv. fold placed in Hm, Hv. split; [exact Hm|]. split.
+  - intros vp Hin. assert (Hp' : List.In (fst vp) (nc_pods n)) by (rewrite <- Hm; apply in_map, Hin).
+    destruct (I2 _ Hp') as (Ht & Hvv). split; [exact Ht|]. split; [apply values_ok_sat_all, Hvv|apply Hv, Hin].
   - intros Hne name Hn. destruct (I3 Hne name Hn) as (i & g & alloc & offs & o & Hi & Hnm & Hg & Hd & _ & Ha & Ho & Hc & Hf).
     exists i, g, alloc, offs, o. repeat split; try assumption.
     intros k. pose proof (fits_spec _ _ Hf k) as Hk. rewrite rget_total_for in Hk by (apply Wg, Hg). rewrite I1 in Hk. exact Hk.
@@ -647,12 +744,33 @@ Qed.
 Fixpoint ex_exec (all : bool) (n : enode) (ops : list pod) : enode :=
   match ops with [] => n | p :: rest => ex_exec all (fst (ex_step all n p)) rest end.
 
-Definition ex_inv (rem0 : rl) (vols0 : vols) (n : enode) : Prop :=
+(* with volume inputs; the second component collects the pods that were placed *)
+Fixpoint ex_exec_v (all : bool) (vn : venode) (placed : list vpod) (ops : list vpod) : venode * list vpod :=
+  match ops with
+  | [] => (vn, placed)
+  | vp :: rest =>
+      match ex_step_v all vn (fst vp) (snd vp) with
+      | (vn', Ok _) => ex_exec_v all vn' (placed ++ [vp]) rest
+      | (vn', Err _) => ex_exec_v all vn' placed rest
+      end
+  end.
+
+Lemma ex_can_add_v_vi0 all vn p : ve_vlimits vn = [] -> ex_can_add_v all vn p vi0 = ex_can_add all (ve_node vn) p.
+Proof.
+  intros E. unfold ex_can_add_v, ex_can_add. rewrite E. cbn [exceeds_limits existsb].
+  destruct (negb (tolerates_all _ _)); [reflexivity|]. destruct (conflicts _ _ _); [reflexivity|].
+  destruct (negb (fits _ _)); [reflexivity|]. destruct (negb (compatible _ _ _)); reflexivity.
+Qed.
+
+Definition ex_inv_v (rem0 : rl) (vols0 : vols) (vn : venode) (placed : list vpod) : Prop :=
+  let n := ve_node vn in
   (forall k, rget k (en_remaining n) = rget k rem0 - rsum (map p_requests (en_pods n)) k) /\
   (forall k, 0 <= rget k (en_remaining n)) /\
-  (forall p, List.In p (en_pods n) -> k8s_tolerated (en_taints n) (p_tols p) /\ values_ok (en_reqs n) p /\ valts_ok (en_reqs n) p) /\
-  en_vols n = vols0 ++ flat_map p_vols (en_pods n) /\
-  (en_pods n <> [] -> forall d l, List.In (d, l) (en_vlimits n) -> vcount d (en_vols n) <= l).
+  (forall p, List.In p (en_pods n) -> k8s_tolerated (en_taints n) (p_tols p) /\ values_ok (en_reqs n) p) /\
+  map fst placed = en_pods n /\
+  (forall vp, List.In vp placed -> valts_ok (en_reqs n) (snd vp)) /\
+  ve_vols vn = vols0 ++ flat_map vi_vols (map snd placed) /\
+  (placed <> [] -> forall d l, List.In (d, l) (ve_vlimits vn) -> vcount d (ve_vols vn) <= l).
 
 Lemma rget_rsub_from dest src k : NoDup (map fst src) -> rget k (rsub_from dest src) = rget k dest - rget k src.
 Proof.
@@ -672,78 +790,92 @@ Proof.
   rewrite X in H. discriminate.
 Qed.
 
-Lemma ex_step_preserves all rem0 vols0 n p : pod_wf p -> ex_inv rem0 vols0 n -> ex_inv rem0 vols0 (fst (ex_step all n p)).
+Lemma ex_step_v_preserves all rem0 vols0 vn placed p vi : pod_wf p -> ex_inv_v rem0 vols0 vn placed ->
+  match ex_step_v all vn p vi with
+  | (vn', Ok _) => ex_inv_v rem0 vols0 vn' (placed ++ [(p, vi)])
+  | (vn', Err _) => vn' = vn
+  end.
 Proof.
-  intros [Wp Wt] (I1 & I0 & I2 & I3 & I4). unfold ex_step, ex_can_add.
-  assert (Same : ex_inv rem0 vols0 n) by (split; [exact I1|split; [exact I0|split; [exact I2|split; [exact I3|exact I4]]]]).
-  destruct (tolerates_all (en_taints n) (p_tols p)) eqn:T; cbn [negb fst]; [|exact Same].
-  destruct (exceeds_limits (en_vlimits n) (en_vols n) (p_vols p)) eqn:V; cbn [negb fst]; [exact Same|].
-  destruct (conflicts (en_ports n) (p_key p) (p_ports p)) eqn:C; cbn [negb fst]; [exact Same|].
-  destruct (fits (p_requests p) (en_remaining n)) eqn:F; cbn [negb fst]; [|exact Same].
-  destruct (compatible [] (en_reqs n) (pod_reqs all p)) eqn:Co; cbn [negb fst]; [|exact Same].
-  destruct (first_ok (ex_try (add (en_reqs n) (pod_reqs all p))) (alt_list p) (Err EVolReqs)) as [r|e] eqn:FO; cbn [fst]; [|exact Same].
+  intros [Wp Wt] (I1 & I0 & I2 & Hm & Hv & I3 & I4). unfold ex_step_v, ex_can_add_v.
+  set (n := ve_node vn) in *.
+  destruct (tolerates_all (en_taints n) (p_tols p)) eqn:T; cbn [negb]; [|reflexivity].
+  destruct (exceeds_limits (ve_vlimits vn) (ve_vols vn) (vi_vols vi)) eqn:V; [reflexivity|].
+  destruct (conflicts (en_ports n) (p_key p) (p_ports p)) eqn:C; [reflexivity|].
+  destruct (fits (p_requests p) (en_remaining n)) eqn:F; cbn [negb]; [|reflexivity].
+  destruct (compatible [] (en_reqs n) (pod_reqs all p)) eqn:Co; cbn [negb]; [|reflexivity].
+  destruct (first_ok (ex_try (add (en_reqs n) (pod_reqs all p))) (alt_list vi) (Err EVolReqs)) as [r|e] eqn:FO; [|reflexivity].
   apply first_ok_ok in FO as [(alt & Halt & Htry)|Hl]; [|discriminate].
   assert (Hr : forall k v, has (get r k) v = true -> has (get (add (en_reqs n) (pod_reqs all p)) k) v = true).
   { intros k v Hh. unfold ex_try in Htry. destruct alt as [a|].
     - destruct (compatible [] (add (en_reqs n) (pod_reqs all p)) a); [|discriminate]. injection Htry as <-. apply add_narrows in Hh. exact Hh.
     - injection Htry as <-. exact Hh. }
-  unfold ex_add, ex_inv. cbn [en_remaining en_pods en_reqs en_taints en_ports en_vols en_vlimits].
-  split; [|split; [|split; [|split]]].
+  assert (Hnar : forall k v, has (get r k) v = true -> has (get (en_reqs n) k) v = true).
+  { intros k v Hh. apply Hr in Hh. apply add_narrows in Hh. exact Hh. }
+  unfold ex_inv_v, ex_add. cbn [ve_node ve_vols ve_vlimits en_remaining en_pods en_reqs en_taints en_ports].
+  split; [|split; [|split; [|split; [|split; [|split]]]]].
   - intros k. rewrite map_app. cbn [map]. rewrite rget_rsub_from, rsum_app, I1 by exact Wp. lia.
   - intros k. rewrite rget_rsub_from by exact Wp. pose proof (fits_spec _ _ F k). lia.
   - intros q Hq. apply in_app_or in Hq as [Hq|[<-|[]]].
-    + destruct (I2 q Hq) as (Ht & Hv & Ha). split; [exact Ht|].
-      assert (Hnar : forall k v, has (get r k) v = true -> has (get (en_reqs n) k) v = true).
-      { intros k v Hh. apply Hr in Hh. apply add_narrows in Hh. exact Hh. }
-      split; [destruct Hv as [V1 V2]; split;
-              [intros k val v Hin Hh; apply (V1 k val v Hin (Hnar _ v Hh))|intros t rest E k o vs v Hin Hh; apply (V2 t rest E k o vs v Hin (Hnar _ v Hh))]|].
-      destruct Ha as [E|(a & Hin & Hall)]; [left; exact E|right; exists a; split; [exact Hin|intros k v Hh; apply Hall, Hnar, Hh]].
-    + split; [apply tolerates_all_k8s, T|]. split.
-      * assert (Hpod : forall k v, has (get r k) v = true -> has (get (pod_reqs all p) k) v = true).
-        { intros k v Hh. apply Hr in Hh. apply has_get_in_add in Hh. exact Hh. }
-        destruct (pod_reqs_sound all p) as [S1 S2]. split.
-        -- intros k val v Hin Hh. apply (S1 k val v Hin (Hpod _ v Hh)).
-        -- intros t rest E k o vs v Hin Hh. apply (S2 t rest E (Wt t rest E) k o vs v Hin (Hpod _ v Hh)).
-      * pose proof (alt_list_in p alt Halt) as Hal. destruct alt as [a|]; [|left; exact Hal].
-        right. exists a. split; [exact Hal|]. intros k v Hh. unfold ex_try in Htry.
-        destruct (compatible [] (add (en_reqs n) (pod_reqs all p)) a); [|discriminate]. injection Htry as <-.
-        apply has_get_in_add in Hh. exact Hh.
-  - rewrite I3, flat_map_app. cbn [flat_map]. rewrite app_nil_r, app_assoc. reflexivity.
+    + destruct (I2 q Hq) as (Ht & Hvv). split; [exact Ht|].
+      destruct Hvv as [V1 V2]; split;
+        [intros k val v Hin Hh; apply (V1 k val v Hin (Hnar _ v Hh))|intros t rest E k o vs v Hin Hh; apply (V2 t rest E k o vs v Hin (Hnar _ v Hh))].
+    + split; [apply tolerates_all_k8s, T|].
+      assert (Hpod : forall k v, has (get r k) v = true -> has (get (pod_reqs all p) k) v = true).
+      { intros k v Hh. apply Hr in Hh. apply has_get_in_add in Hh. exact Hh. }
+      destruct (pod_reqs_sound all p) as [S1 S2]. split.
+      * intros k val v Hin Hh. apply (S1 k val v Hin (Hpod _ v Hh)).
+      * intros t rest E k o vs v Hin Hh. apply (S2 t rest E (Wt t rest E) k o vs v Hin (Hpod _ v Hh)).
+  - rewrite <- Hm, map_app. reflexivity.
+  - intros vp Hin. apply in_app_or in Hin as [Hin|[<-|[]]]; [apply (valts_ok_narrow _ _ _ Hnar), Hv, Hin|].
+    cbn [snd]. pose proof (alt_list_in vi alt Halt) as Hal. destruct alt as [a|]; [|left; exact Hal].
+    right. exists a. split; [exact Hal|]. intros k v Hh. unfold ex_try in Htry.
+    destruct (compatible [] (add (en_reqs n) (pod_reqs all p)) a); [|discriminate]. injection Htry as <-.
+    apply has_get_in_add in Hh. exact Hh.
+  - rewrite I3, map_app, flat_map_app. cbn [map flat_map snd]. rewrite app_nil_r, app_assoc. reflexivity.
   - intros _ d l Hin. apply (exceeds_limits_false _ _ _ V d l Hin).
 Qed.
 
-Theorem ex_exec_inv_l all rem0 vols0 ops : forall n,
-  Forall pod_wf ops -> ex_inv rem0 vols0 n -> ex_inv rem0 vols0 (ex_exec all n ops).
+Lemma ex_step_v_limits all vn p vi : ve_vlimits (fst (ex_step_v all vn p vi)) = ve_vlimits vn.
+Proof. unfold ex_step_v. destruct (ex_can_add_v all vn p vi); reflexivity. Qed.
+
+Theorem ex_exec_v_inv_l all rem0 vols0 ops : forall vn placed,
+  Forall (fun vp : vpod => pod_wf (fst vp)) ops -> ex_inv_v rem0 vols0 vn placed ->
+  ex_inv_v rem0 vols0 (fst (ex_exec_v all vn placed ops)) (snd (ex_exec_v all vn placed ops)) /\
+  ve_vlimits (fst (ex_exec_v all vn placed ops)) = ve_vlimits vn.
 Proof.
-  induction ops as [|p ops IH]; intros n W I; simpl; [exact I|].
-  inversion W; subst. apply IH; [assumption|]. apply ex_step_preserves; assumption.
+  induction ops as [|[p vi] ops IH]; intros vn placed W I; simpl; [split; [exact I|reflexivity]|].
+  inversion W as [|? ? Wp Wr]; subst. cbn [fst] in Wp.
+  pose proof (ex_step_v_preserves all rem0 vols0 vn placed p vi Wp I) as H.
+  pose proof (ex_step_v_limits all vn p vi) as HL.
+  destruct (ex_step_v all vn p vi) as [vn' [x|e]]; cbn [fst] in HL.
+  - destruct (IH vn' _ Wr H) as [H1 H2]. split; [exact H1|]. etransitivity; [exact H2|exact HL].
+  - subst vn'. apply IH; assumption.
 Qed.
 
-Lemma ex_exec_vlimits all ops : forall n, en_vlimits (ex_exec all n ops) = en_vlimits n.
+(* the pods placed on an existing node never exceed what was left for them (remaining resources = available minus the
+   daemons still to come); the distinct volumes per CSI driver — those already attached plus those of the placed pods —
+   stay within the node's attach limits; and every placed pod keeps a satisfied volume-topology alternative *)
+Theorem ex_resources_l all ops vn0 :
+  Forall (fun vp : vpod => pod_wf (fst vp)) ops -> en_pods (ve_node vn0) = [] -> (forall k, 0 <= rget k (en_remaining (ve_node vn0))) ->
+  let vn := fst (ex_exec_v all vn0 [] ops) in
+  let placed := snd (ex_exec_v all vn0 [] ops) in
+  map fst placed = en_pods (ve_node vn) /\
+  (forall k, rsum (map p_requests (map fst placed)) k <= rget k (en_remaining (ve_node vn0))) /\
+  (placed <> [] -> forall d l, List.In (d, l) (ve_vlimits vn0) -> vcount d (ve_vols vn0 ++ flat_map vi_vols (map snd placed)) <= l) /\
+  (forall vp, List.In vp placed -> k8s_tolerated (en_taints (ve_node vn)) (p_tols (fst vp)) /\
+                                    chosen_ok (en_reqs (ve_node vn)) (fst vp) /\ valts_ok (en_reqs (ve_node vn)) (snd vp)).
 Proof.
-  induction ops as [|p ops IH]; intros n; simpl; [reflexivity|]. rewrite IH. unfold ex_step.
-  destruct (ex_can_add all n p); reflexivity.
-Qed.
-
-(* the pods placed on an existing node never exceed what was left for them (remaining resources = available
-   minus the daemons still to come), and the distinct volumes per CSI driver — those already attached plus those of the
-   placed pods — stay within the node's attach limits *)
-Theorem ex_resources_l all ops n0 :
-  Forall pod_wf ops -> en_pods n0 = [] -> (forall k, 0 <= rget k (en_remaining n0)) ->
-  let n := ex_exec all n0 ops in
-  (forall k, rsum (map p_requests (en_pods n)) k <= rget k (en_remaining n0)) /\
-  (en_pods n <> [] -> forall d l, List.In (d, l) (en_vlimits n0) -> vcount d (en_vols n0 ++ flat_map p_vols (en_pods n)) <= l) /\
-  (forall p, List.In p (en_pods n) -> valts_ok (en_reqs n) p).
-Proof.
-  intros W Hp Hnn n.
-  assert (I : ex_inv (en_remaining n0) (en_vols n0) n0).
-  { unfold ex_inv. rewrite Hp. split; [intros k0; cbn [map rsum fold_right]; lia|]. split; [exact Hnn|]. split; [intros q []|].
-    split; [cbn [flat_map]; rewrite app_nil_r; reflexivity|intros H; congruence]. }
-  destruct (ex_exec_inv_l all _ _ ops n0 W I) as (I1 & I0 & I2 & I3 & I4). fold n in I1, I0, I2, I3, I4.
-  split; [|split].
-  - intros k. specialize (I1 k). specialize (I0 k). lia.
-  - intros Hne d l Hin. rewrite <- I3. apply (I4 Hne). unfold n. rewrite ex_exec_vlimits. exact Hin.
-  - intros p Hin. apply (I2 p Hin).
+  intros W Hp Hnn vn placed.
+  assert (I : ex_inv_v (en_remaining (ve_node vn0)) (ve_vols vn0) vn0 []).
+  { unfold ex_inv_v. rewrite Hp. split; [intros k0; cbn [map rsum fold_right]; lia|]. split; [exact Hnn|]. split; [intros q []|].
+    split; [reflexivity|]. split; [intros vp []|]. split; [cbn [map flat_map]; rewrite app_nil_r; reflexivity|intros H; congruence]. }
+  destruct (ex_exec_v_inv_l all _ _ ops vn0 [] W I) as [(I1 & I0 & I2 & Hm & Hv & I3 & I4) HL].
+  fold vn in I1, I0, I2, Hm, Hv, I3, I4, HL. fold placed in Hm, Hv, I3, I4.
+  split; [exact Hm|]. split; [|split].
+  - intros k. rewrite Hm. specialize (I1 k). specialize (I0 k). lia.
+  - intros Hne d l Hin. rewrite <- I3. apply (I4 Hne). rewrite HL. exact Hin.
+  - intros vp Hin. assert (Hp' : List.In (fst vp) (en_pods (ve_node vn))) by (rewrite <- Hm; apply in_map, Hin).
+    destruct (I2 _ Hp') as [Ht Hvv]. split; [exact Ht|]. split; [apply values_ok_sat_all, Hvv|apply Hv, Hin].
 Qed.
 
 (* ================================================================== Preferences.Relax *)
@@ -1105,13 +1237,12 @@ Proof.
 Qed.
 
 Definition eff_wf (eff : string -> option req) : Prop := forall k x, eff k = Some x -> wf x.
-Definition pod_valid (p : pod) : Prop :=
-  (forall t, List.In t (p_req p) -> valid_term t) /\
-  (forall terms t, List.In terms (p_volterms p) -> List.In t terms -> valid_term t).
+Definition pod_valid (p : pod) : Prop := forall t, List.In t (p_req p) -> valid_term t.
+Definition vinfo_valid (vi : vinfo) : Prop := forall terms t, List.In terms (vi_volterms vi) -> List.In t terms -> valid_term t.
 
 Lemma labels_ok_b_spec eff p : eff_wf eff -> pod_valid p -> (labels_ok_b eff p = true <-> labels_ok eff p).
 Proof.
-  intros We [Wp _]. unfold labels_ok_b, labels_ok. rewrite andb_true_iff, forallb_forall.
+  intros We Wp. unfold labels_ok_b, labels_ok. rewrite andb_true_iff, forallb_forall.
   assert (Hsel : forall kv : string * string, sat_all_ob (eff (fst kv)) In [snd kv] = true <-> sat_all_o (eff (fst kv)) In [snd kv]).
   { intros kv. apply sat_all_ob_spec; [intros x E; apply (We _ _ E)|reflexivity]. }
   assert (Hterm : forall t, List.In t (p_req p) -> (forallb (expr_ok_b eff) t = true <-> forall x, List.In x t -> expr_ok eff x)).
@@ -1139,14 +1270,14 @@ Proof.
   - intros [E|(t & Ht & Hf)]; [discriminate|]. apply existsb_exists. exists t. split; [exact Ht|]. apply (Hterm t Ht), Hf.
 Qed.
 
-Lemma vol_zone_ok_b_spec eff p : eff_wf eff -> pod_valid p -> (vol_zone_ok_b eff p = true <-> vol_zone_ok eff p).
+Lemma vol_zone_ok_b_spec eff vi : eff_wf eff -> vinfo_valid vi -> (vol_zone_ok_b eff vi = true <-> vol_zone_ok eff vi).
 Proof.
-  intros We [_ Wv]. unfold vol_zone_ok_b, vol_zone_ok. rewrite forallb_forall. split.
+  intros We Wv. unfold vol_zone_ok_b, vol_zone_ok. rewrite forallb_forall. split.
   - intros H terms Hin. apply (terms_ok_b_spec eff terms We (fun t Ht => Wv terms t Hin Ht)), H, Hin.
   - intros H terms Hin. apply (terms_ok_b_spec eff terms We (fun t Ht => Wv terms t Hin Ht)), H, Hin.
 Qed.
 
-Lemma vol_limits_ok_b_spec limits ps : vol_limits_ok_b limits ps = true <-> vol_limits_ok limits ps.
+Lemma vol_limits_ok_b_spec limits vis : vol_limits_ok_b limits vis = true <-> vol_limits_ok limits vis.
 Proof.
   unfold vol_limits_ok_b, vol_limits_ok. rewrite forallb_forall. split.
   - intros H d l Hin. specialize (H (d, l) Hin). apply Z.leb_le, H.
@@ -1157,17 +1288,25 @@ Qed.
 Theorem admissible_b_spec_l v ps : eff_wf (v_eff v) -> Forall pod_valid ps ->
   (admissible_b v ps = true <-> admissible v ps).
 Proof.
-  intros We Wp. unfold admissible_b, admissible.
-  rewrite !andb_true_iff, forallb_forall, ports_ok_b_spec, resources_ok_b_spec, vol_limits_ok_b_spec.
+  intros We Wp. unfold admissible_b, admissible. rewrite !andb_true_iff, forallb_forall, ports_ok_b_spec, resources_ok_b_spec.
   rewrite Forall_forall in Wp. split.
-  - intros [[[H1 H2] H3] H4]. split; [|split; [exact H2|split; [exact H3|exact H4]]]. intros p Hp. specialize (H1 p Hp).
-    apply andb_prop in H1 as [H1 Hc]. apply andb_prop in H1 as [Ha Hb].
-    split; [apply (labels_ok_b_spec _ _ We (Wp p Hp)), Ha|]. split; [apply k8s_tolerated_b_spec, Hb|apply (vol_zone_ok_b_spec _ _ We (Wp p Hp)), Hc].
-  - intros [H1 [H2 [H3 H4]]]. split; [split; [split; [|exact H2]|exact H3]|exact H4]. intros p Hp. destruct (H1 p Hp) as (Ha & Hb & Hc).
-    apply andb_true_intro. split; [apply andb_true_intro; split|].
-    + apply (labels_ok_b_spec _ _ We (Wp p Hp)), Ha.
-    + apply k8s_tolerated_b_spec, Hb.
-    + apply (vol_zone_ok_b_spec _ _ We (Wp p Hp)), Hc.
+  - intros [[H1 H2] H3]. split; [|split; assumption]. intros p Hp. specialize (H1 p Hp). apply andb_prop in H1 as [Ha Hb].
+    split; [apply (labels_ok_b_spec _ _ We (Wp p Hp)), Ha|apply k8s_tolerated_b_spec, Hb].
+  - intros [H1 [H2 H3]]. split; [split; [|exact H2]|exact H3]. intros p Hp. destruct (H1 p Hp) as [Ha Hb].
+    apply andb_true_intro. split; [apply (labels_ok_b_spec _ _ We (Wp p Hp)), Ha|apply k8s_tolerated_b_spec, Hb].
+Qed.
+
+Theorem admissible_vb_spec_l v vlimits ps : eff_wf (v_eff v) ->
+  Forall (fun vp : vpod => pod_valid (fst vp) /\ vinfo_valid (snd vp)) ps ->
+  (admissible_vb v vlimits ps = true <-> admissible_v v vlimits ps).
+Proof.
+  intros We Wp. unfold admissible_vb, admissible_v. rewrite !andb_true_iff, forallb_forall, vol_limits_ok_b_spec.
+  rewrite Forall_forall in Wp.
+  assert (Wp1 : Forall pod_valid (map fst ps)).
+  { apply Forall_forall. intros p Hp. apply in_map_iff in Hp as (vp & <- & Hin). apply (Wp vp Hin). }
+  rewrite (admissible_b_spec_l v (map fst ps) We Wp1). split.
+  - intros [[H1 H2] H3]. split; [exact H1|]. split; [|exact H3]. intros vp Hin. apply (vol_zone_ok_b_spec _ _ We (proj2 (Wp vp Hin))), H2, Hin.
+  - intros [H1 [H2 H3]]. split; [split; [exact H1|]|exact H3]. intros vp Hin. apply (vol_zone_ok_b_spec _ _ We (proj2 (Wp vp Hin))), H2, Hin.
 Qed.
 
 (* ================================================================== findings: refutations on the faithful model *)
@@ -1177,7 +1316,7 @@ Definition claim0 (r : reqs) : nclaim := mkNC [] r [] [] [] [].
 (* F11: required `team In [a]` with the preference `team In [c]`: the pod's own requirement for the key is empty,
    is stored as DoesNotExist and passes Compatible on a claim that does not define the key *)
 Definition f11_pod : pod :=
-  mkPod "default/w1" [] [[("team", In, ["a"])]] [(1, [("team", In, ["c"])])] [] [] [] [] [] [("cpu", 500)] [] [] [].
+  mkPod "default/w1" [] [[("team", In, ["a"])]] [(1, [("team", In, ["c"])])] [] [] [] [] [] [("cpu", 500)].
 
 Lemma f11_compatible : compatible [] [] (pod_reqs true f11_pod) = true /\
   (forall v, has (get (add [] (pod_reqs true f11_pod)) "team") v = false) /\
@@ -1189,9 +1328,9 @@ Proof.
 Qed.
 
 (* F12: an existing node without a `team` label; `team NotIn [a]` then `team In [b]` are both accepted *)
-Definition f12_node : enode := mkEN [] [("zone", new_req In None ["z1"])] [("cpu", 4000)] [] [] [] [].
-Definition f12_p1 : pod := mkPod "default/w3" [] [[("team", NotIn, ["a"])]] [] [] [] [] [] [] [("cpu", 300)] [] [] [].
-Definition f12_p2 : pod := mkPod "default/w4" [] [[("team", In, ["b"])]] [] [] [] [] [] [] [("cpu", 200)] [] [] [].
+Definition f12_node : enode := mkEN [] [("zone", new_req In None ["z1"])] [("cpu", 4000)] [] [].
+Definition f12_p1 : pod := mkPod "default/w3" [] [[("team", NotIn, ["a"])]] [] [] [] [] [] [] [("cpu", 300)].
+Definition f12_p2 : pod := mkPod "default/w4" [] [[("team", In, ["b"])]] [] [] [] [] [] [] [("cpu", 200)].
 
 Lemma f12_accepted :
   let n := ex_exec true f12_node [f12_p1; f12_p2] in
@@ -1204,12 +1343,12 @@ Lemma f12_order : map p_key (en_pods (ex_exec true f12_node [f12_p2; f12_p1])) =
 Proof. vm_compute. reflexivity. Qed.
 
 (* F13: ExistingNode.CanAdd never looks at the host ports of daemons that are still to arrive *)
-Definition f13_pod : pod := mkPod "default/w5" [] [] [] [] [] [] [] [mkHP "0.0.0.0" 8080 "TCP"] [("cpu", 200)] [] [] [].
-Definition f13_daemon : pod := mkPod "default/ds" [] [] [] [] [] [] [mkTol "" "Exists" "" ""] [mkHP "0.0.0.0" 8080 "TCP"] [("cpu", 100)] [] [] [].
+Definition f13_pod : pod := mkPod "default/w5" [] [] [] [] [] [] [] [mkHP "0.0.0.0" 8080 "TCP"] [("cpu", 200)].
+Definition f13_daemon : pod := mkPod "default/ds" [] [] [] [] [] [] [mkTol "" "Exists" "" ""] [mkHP "0.0.0.0" 8080 "TCP"] [("cpu", 100)].
 
 Lemma f13_accepted :
   map p_key (en_pods (ex_exec true f12_node [f13_pod])) = ["default/w5"] /\
-  existing_admissible_b [("zone", "z1")] [] [("cpu", 4000)] [] [] [f13_pod] [f13_daemon] = false.
+  existing_admissible_b [("zone", "z1")] [] [("cpu", 4000)] [] [f13_pod] [f13_daemon] = false.
 Proof. vm_compute. split; reflexivity. Qed.
 
 (* F11 at step level: the real step function places the pod, the claim then requires `team DoesNotExist`, and the
@@ -1228,7 +1367,7 @@ Definition ex_it1 : itype := mkIT "small" [("zone", new_req In None ["z1"; "z2"]
 Definition ex_it2 : itype := mkIT "big" [("zone", new_req In None ["z1"])] [([("cpu", 4000); ("pods", 4000)], [[("zone", new_req In None ["z1"])]])].
 Definition ex_claim : nclaim := mkNC [mkTaint "dedicated" "x" "NoSchedule"] [] ["small"; "big"] [] [mkDG ["small"; "big"] [("cpu", 100); ("pods", 1000)] []] [].
 Definition ex_pod (name : string) (cpu : Z) : pod :=
-  mkPod name [("zone", "z1")] [] [] [] [] [] [mkTol "dedicated" "Exists" "" ""] [] [("cpu", cpu); ("pods", 1000)] [] [] [].
+  mkPod name [("zone", "z1")] [] [] [] [] [] [mkTol "dedicated" "Exists" "" ""] [] [("cpu", cpu); ("pods", 1000)].
 
 Lemma example_two_pods :
   let n := nc_exec ["zone"] [ex_it1; ex_it2] true ex_claim [(ex_pod "a" 600, false); (ex_pod "b" 600, false)] in
@@ -1236,7 +1375,7 @@ Lemma example_two_pods :
 Proof. vm_compute. repeat split; reflexivity. Qed.
 
 Lemma example_relax :
-  let p := mkPod "p" [] [[("a", In, ["1"])]; [("b", In, ["2"])]] [(5, [("c", Exists, [])])] [] [] [("zone", true); ("host", false)] [] [] [] [] [] [] in
+  let p := mkPod "p" [] [[("a", In, ["1"])]; [("b", In, ["2"])]] [(5, [("c", Exists, [])])] [] [] [("zone", true); ("host", false)] [] [] [] in
   p_req (relax_n true 10 p) = [[("b", In, ["2"])]] /\ p_pref (relax_n true 10 p) = [] /\
   p_tsc (relax_n true 10 p) = [("host", false)] /\ p_tols (relax_n true 10 p) = [pns_toleration].
 Proof. vm_compute. repeat split; reflexivity. Qed.
@@ -1292,47 +1431,46 @@ Qed.
 Definition ex_ports_inv (n : enode) : Prop :=
   usage_ok (en_ports n) /\ forall p, List.In p (en_pods n) -> List.In (p_key p, p_ports p) (en_ports n).
 
-Lemma ex_step_pods all n p : en_pods (fst (ex_step all n p)) = en_pods n \/ en_pods (fst (ex_step all n p)) = en_pods n ++ [p].
-Proof. unfold ex_step. destruct (ex_can_add all n p); [right|left]; reflexivity. Qed.
+Lemma ex_step_v_pods all vn p vi :
+  en_pods (ve_node (fst (ex_step_v all vn p vi))) = en_pods (ve_node vn) \/
+  en_pods (ve_node (fst (ex_step_v all vn p vi))) = en_pods (ve_node vn) ++ [p].
+Proof. unfold ex_step_v. destruct (ex_can_add_v all vn p vi); [right|left]; reflexivity. Qed.
 
-Lemma ex_step_ports all n p :
-  ex_ports_inv n -> (forall q, List.In q (en_pods n) -> p_key q <> p_key p) -> ex_ports_inv (fst (ex_step all n p)).
+Lemma ex_step_v_ports all vn p vi :
+  ex_ports_inv (ve_node vn) -> (forall q, List.In q (en_pods (ve_node vn)) -> p_key q <> p_key p) ->
+  ex_ports_inv (ve_node (fst (ex_step_v all vn p vi))).
 Proof.
-  intros [Hu Hr] Hfresh. unfold ex_step. destruct (ex_can_add all n p) as [r|e] eqn:C; cbn [fst]; [|split; assumption].
-  assert (Hc : conflicts (en_ports n) (p_key p) (p_ports p) = false).
-  { unfold ex_can_add in C. destruct (tolerates_all _ _); cbn [negb] in C; [|discriminate].
+  intros [Hu Hr] Hfresh. unfold ex_step_v. destruct (ex_can_add_v all vn p vi) as [r|e] eqn:C; cbn [fst ve_node]; [|split; assumption].
+  assert (Hc : conflicts (en_ports (ve_node vn)) (p_key p) (p_ports p) = false).
+  { unfold ex_can_add_v in C. destruct (tolerates_all _ _); cbn [negb] in C; [|discriminate].
     destruct (exceeds_limits _ _ _); [discriminate|]. destruct (conflicts _ _ _); [discriminate|reflexivity]. }
   unfold ex_add, ex_ports_inv. cbn [en_ports en_pods]. split; [apply usage_ok_uset; assumption|].
   intros q Hq. apply in_app_or in Hq as [Hq|[<-|[]]]; [|apply uset_has].
   apply uset_keeps; [apply Hfresh, Hq|apply Hr, Hq].
 Qed.
 
-Lemma ex_exec_pods_from all ops : forall n q, List.In q (en_pods (ex_exec all n ops)) -> List.In q (en_pods n) \/ List.In q ops.
+Lemma ex_exec_v_ports all ops : forall vn placed,
+  NoDup (map (fun vp : vpod => p_key (fst vp)) ops) ->
+  (forall q vp, List.In q (en_pods (ve_node vn)) -> List.In vp ops -> p_key q <> p_key (fst vp)) ->
+  ex_ports_inv (ve_node vn) -> ex_ports_inv (ve_node (fst (ex_exec_v all vn placed ops))).
 Proof.
-  induction ops as [|p ops IH]; intros n q; simpl; [intros H; left; exact H|].
-  intros H. destruct (IH _ _ H) as [Hq|Hq]; [|right; right; exact Hq].
-  destruct (ex_step_pods all n p) as [E|E]; rewrite E in Hq; [left; exact Hq|].
-  apply in_app_or in Hq as [Hq|[<-|[]]]; [left; exact Hq|right; left; reflexivity].
-Qed.
-
-Lemma ex_exec_ports all ops : forall n,
-  NoDup (map p_key ops) -> (forall q p, List.In q (en_pods n) -> List.In p ops -> p_key q <> p_key p) ->
-  ex_ports_inv n -> ex_ports_inv (ex_exec all n ops).
-Proof.
-  induction ops as [|p ops IH]; intros n Hnd Hfresh I; simpl; [exact I|].
-  inversion Hnd as [|? ? Hnotin Hnd']; subst. apply IH; [exact Hnd'| |].
-  - intros q p' Hq Hp'. destruct (ex_step_pods all n p) as [E|E]; rewrite E in Hq.
-    + apply Hfresh; [exact Hq|right; exact Hp'].
-    + apply in_app_or in Hq as [Hq|[<-|[]]]; [apply Hfresh; [exact Hq|right; exact Hp']|].
-      intros E'. apply Hnotin. rewrite E'. apply in_map, Hp'.
-  - apply ex_step_ports; [exact I|]. intros q Hq. apply Hfresh; [exact Hq|left; reflexivity].
+  induction ops as [|[p vi] ops IH]; intros vn placed Hnd Hfresh I; simpl; [exact I|].
+  inversion Hnd as [|? ? Hnotin Hnd']; subst. cbn [fst] in Hnotin.
+  pose proof (ex_step_v_ports all vn p vi I (fun q Hq => Hfresh q (p, vi) Hq (or_introl eq_refl))) as I'.
+  pose proof (ex_step_v_pods all vn p vi) as Hpods.
+  assert (Hfresh' : forall q vp, List.In q (en_pods (ve_node (fst (ex_step_v all vn p vi)))) -> List.In vp ops -> p_key q <> p_key (fst vp)).
+  { intros q vp Hq Hvp. destruct Hpods as [E|E]; rewrite E in Hq.
+    - apply Hfresh; [exact Hq|right; exact Hvp].
+    - apply in_app_or in Hq as [Hq|[<-|[]]]; [apply Hfresh; [exact Hq|right; exact Hvp]|].
+      intros E'. apply Hnotin. rewrite E'. apply (in_map (fun vp0 : vpod => p_key (fst vp0))), Hvp. }
+  destruct (ex_step_v all vn p vi) as [vn' [x|e]]; cbn [fst] in I', Hfresh'; apply IH; assumption.
 Qed.
 
 (* no two pods placed on an existing node, nor a placed pod and anything reserved on the node before (bound pods),
    share a host-port triple — for every sequence of attempts by distinct pods *)
-Theorem ex_ports_pairwise_l all ops n0 :
-  NoDup (map p_key ops) -> en_pods n0 = [] -> usage_ok (en_ports n0) ->
-  let n := ex_exec all n0 ops in
+Theorem ex_ports_pairwise_l all ops vn0 :
+  NoDup (map (fun vp : vpod => p_key (fst vp)) ops) -> en_pods (ve_node vn0) = [] -> usage_ok (en_ports (ve_node vn0)) ->
+  let n := ve_node (fst (ex_exec_v all vn0 [] ops)) in
   (forall p q a b, List.In p (en_pods n) -> List.In q (en_pods n) -> p_key p <> p_key q ->
      List.In a (p_ports p) -> List.In b (p_ports q) -> hp_matches a b = false) /\
   (forall p k ps a b, List.In p (en_pods n) -> List.In (k, ps) (en_ports n) -> k <> p_key p ->
@@ -1340,7 +1478,7 @@ Theorem ex_ports_pairwise_l all ops n0 :
 Proof.
   intros Hnd Hp Hu n.
   assert (I : ex_ports_inv n).
-  { apply ex_exec_ports; [exact Hnd|rewrite Hp; intros q p []|split; [exact Hu|rewrite Hp; intros q []]]. }
+  { apply ex_exec_v_ports; [exact Hnd|rewrite Hp; intros q vp []|split; [exact Hu|rewrite Hp; intros q []]]. }
   destruct I as [Iu Ir]. split.
   - intros p q a b Hp' Hq Hne Ha Hb. apply (Iu _ _ _ _ a b (Ir p Hp') (Ir q Hq) Hne Ha Hb).
   - intros p k ps a b Hp' Hin Hne Ha Hb. apply (Iu _ _ _ _ a b (Ir p Hp') Hin (fun E => Hne (eq_sym E)) Ha Hb).
@@ -1360,19 +1498,19 @@ Definition nc_ports_inv (n : nclaim) : Prop :=
 
 Definition upd_group (p : pod) (g : dgroup) : dgroup := mkDG (dg_its g) (dg_overhead g) (uset (dg_ports g) (p_key p) (p_ports p)).
 
-Lemma nc_step_pods wk cat all rx n p :
-  nc_pods (fst (nc_step wk cat all rx n p)) = nc_pods n \/ nc_pods (fst (nc_step wk cat all rx n p)) = nc_pods n ++ [p].
-Proof. unfold nc_step. destruct (nc_can_add wk cat all rx n p) as [[r its]|e]; [right|left]; reflexivity. Qed.
+Lemma nc_step_v_pods wk cat all rx n p vi :
+  nc_pods (fst (nc_step_v wk cat all rx n p vi)) = nc_pods n \/ nc_pods (fst (nc_step_v wk cat all rx n p vi)) = nc_pods n ++ [p].
+Proof. unfold nc_step_v. destruct (nc_can_add_v wk cat all rx n p vi) as [[r its]|e]; [right|left]; reflexivity. Qed.
 
 Lemma mem_true_in x l : mem x l = true -> List.In x l.
 Proof. apply mem_In. Qed.
 
-Lemma nc_step_ports wk cat all rx n p :
-  nc_ports_inv n -> (forall q, List.In q (nc_pods n) -> p_key q <> p_key p) -> nc_ports_inv (fst (nc_step wk cat all rx n p)).
+Lemma nc_step_v_ports wk cat all rx n p vi :
+  nc_ports_inv n -> (forall q, List.In q (nc_pods n) -> p_key q <> p_key p) -> nc_ports_inv (fst (nc_step_v wk cat all rx n p vi)).
 Proof.
-  intros [Hd Hg] Hfresh. unfold nc_step.
-  destruct (nc_can_add wk cat all rx n p) as [[r its]|e] eqn:C; cbn [fst]; [|split; assumption].
-  destruct (nc_can_add_ok _ _ _ _ _ _ _ _ C) as (_ & _ & alt & u & _ & _ & _ & Hits).
+  intros [Hd Hg] Hfresh. unfold nc_step_v.
+  destruct (nc_can_add_v wk cat all rx n p vi) as [[r its]|e] eqn:C; cbn [fst]; [|split; assumption].
+  destruct (nc_can_add_v_ok _ _ _ _ _ _ _ _ _ C) as (_ & _ & alt & u & _ & _ & _ & Hits).
   unfold nc_add, nc_ports_inv. cbn [nc_groups nc_pods nc_its]. fold (upd_group p). split.
   - intros g1' g2' name H1 H2 N1 N2. apply in_map_iff in H1 as (g1 & <- & H1). apply in_map_iff in H2 as (g2 & <- & H2).
     cbn [upd_group dg_its] in N1, N2. rewrite (Hd g1 g2 name H1 H2 N1 N2). reflexivity.
@@ -1385,26 +1523,29 @@ Proof.
     apply uset_keeps; [apply Hfresh, Hq|apply Hr, Hq].
 Qed.
 
-Lemma nc_exec_ports wk cat all ops : forall n,
-  NoDup (map (fun op : pod * bool => p_key (fst op)) ops) ->
-  (forall q op, List.In q (nc_pods n) -> List.In op ops -> p_key q <> p_key (fst op)) ->
-  nc_ports_inv n -> nc_ports_inv (nc_exec wk cat all n ops).
+Lemma nc_exec_v_ports wk cat all ops : forall n placed,
+  NoDup (map (fun op : vpod * bool => p_key (fst (fst op))) ops) ->
+  (forall q op, List.In q (nc_pods n) -> List.In op ops -> p_key q <> p_key (fst (fst op))) ->
+  nc_ports_inv n -> nc_ports_inv (fst (nc_exec_v wk cat all n placed ops)).
 Proof.
-  induction ops as [|[p rx] ops IH]; intros n Hnd Hfresh I; simpl; [exact I|].
-  inversion Hnd as [|? ? Hnotin Hnd']; subst. apply IH; [exact Hnd'| |].
-  - intros q op Hq Hop. destruct (nc_step_pods wk cat all rx n p) as [E|E]; rewrite E in Hq.
-    + apply Hfresh; [exact Hq|right; exact Hop].
-    + apply in_app_or in Hq as [Hq|[<-|[]]]; [apply Hfresh; [exact Hq|right; exact Hop]|].
-      intros E'. apply Hnotin. simpl. rewrite E'. apply (in_map (fun op0 : pod * bool => p_key (fst op0))), Hop.
-  - apply nc_step_ports; [exact I|]. intros q Hq. apply (Hfresh q (p, rx)); [exact Hq|left; reflexivity].
+  induction ops as [|[[p vi] rx] ops IH]; intros n placed Hnd Hfresh I; simpl; [exact I|].
+  inversion Hnd as [|? ? Hnotin Hnd']; subst. cbn [fst] in Hnotin.
+  pose proof (nc_step_v_ports wk cat all rx n p vi I (fun q Hq => Hfresh q ((p, vi), rx) Hq (or_introl eq_refl))) as I'.
+  pose proof (nc_step_v_pods wk cat all rx n p vi) as Hpods.
+  assert (Hfresh' : forall q op, List.In q (nc_pods (fst (nc_step_v wk cat all rx n p vi))) -> List.In op ops -> p_key q <> p_key (fst (fst op))).
+  { intros q op Hq Hop. destruct Hpods as [E|E]; rewrite E in Hq.
+    - apply Hfresh; [exact Hq|right; exact Hop].
+    - apply in_app_or in Hq as [Hq|[<-|[]]]; [apply Hfresh; [exact Hq|right; exact Hop]|].
+      intros E'. apply Hnotin. rewrite E'. apply (in_map (fun op0 : vpod * bool => p_key (fst (fst op0)))), Hop. }
+  destruct (nc_step_v wk cat all rx n p vi) as [n' [x|e]]; cbn [fst] in I', Hfresh'; apply IH; assumption.
 Qed.
 
 (* for every overhead group that still has a remaining instance type: no two pods of the claim, nor a pod and a daemon
    of that group, share a host-port triple — for every sequence of attempts by distinct pods *)
 Theorem nc_ports_pairwise_l wk cat all ops n0 :
-  NoDup (map (fun op : pod * bool => p_key (fst op)) ops) -> nc_pods n0 = [] ->
+  NoDup (map (fun op : vpod * bool => p_key (fst (fst op))) ops) -> nc_pods n0 = [] ->
   groups_disjoint (nc_groups n0) -> (forall g, List.In g (nc_groups n0) -> usage_ok (dg_ports g)) ->
-  let n := nc_exec wk cat all n0 ops in
+  let n := fst (nc_exec_v wk cat all n0 [] ops) in
   forall g, List.In g (nc_groups n) -> live n g ->
     (forall p q a b, List.In p (nc_pods n) -> List.In q (nc_pods n) -> p_key p <> p_key q ->
        List.In a (p_ports p) -> List.In b (p_ports q) -> hp_matches a b = false) /\
@@ -1413,7 +1554,7 @@ Theorem nc_ports_pairwise_l wk cat all ops n0 :
 Proof.
   intros Hnd Hp Hd Hu n g Hg Hl.
   assert (I : nc_ports_inv n).
-  { apply nc_exec_ports; [exact Hnd|rewrite Hp; intros q op []|].
+  { apply nc_exec_v_ports; [exact Hnd|rewrite Hp; intros q op []|].
     split; [exact Hd|]. intros g0 Hg0 _. split; [apply Hu, Hg0|rewrite Hp; intros q []]. }
   destruct I as [_ Ig]. destruct (Ig g Hg Hl) as [Iu Ir]. split.
   - intros p q a b Hp' Hq Hne Ha Hb. apply (Iu _ _ _ _ a b (Ir p Hp') (Ir q Hq) Hne Ha Hb).
